@@ -41,8 +41,10 @@ import (
 // ---------------------------------------------------------------- the small contract
 // runtime (three shapes, all hand-assembled):
 //   calldata empty      -> return one 32-byte word: SLOAD(ret slot)  (shape 2: a constant baked into the code)
-//   calldata non-empty  -> SSTORE(calldata[0:32], calldata[32:64]); STOP
-// init code: SSTORE(slot_i, val_i) for the constructor slots, then return the runtime.
+//   calldata non-empty  -> a list of (key, value) words: SSTORE(key, value) for each pair; STOP
+//                          (one pair = one changed slot; the pairs (slot_i, 0) for every constructor slot = the
+//                          contract clears all its storage in one call)
+// init code: SSTORE(slot_i, val_i) for the constructor slots, then one of the ENDINGS below.
 func smallRuntime(kind int, v uint64) []byte {
 	var get string
 	switch ((kind % 3) + 3) % 3 {
@@ -53,7 +55,35 @@ func smallRuntime(kind int, v uint64) []byte {
 	default:
 		get = fmt.Sprintf("%d", v|1) // storage-less answer: the code itself varies with v
 	}
-	return assemble("CALLDATASIZE @set JUMPI " + get + " 0 MSTORE 32 0 RETURN set: 32 CALLDATALOAD 0 CALLDATALOAD SSTORE STOP")
+	return assemble("CALLDATASIZE @set JUMPI " + get + " 0 MSTORE 32 0 RETURN " +
+		"set: 0 loop: DUP1 CALLDATASIZE GT ISZERO @end JUMPI DUP1 32 ADD CALLDATALOAD DUP2 CALLDATALOAD SSTORE 64 ADD @loop JUMP end: STOP")
+}
+
+// How a constructor ends (hOp.End of "deployc" / "create2").  Whatever the ending, the constructor's SSTOREs
+// come first: an ending that leaves NO code behind still leaves the storage behind (the account then has
+// nonce 1, the empty code hash and live storage slots: not an externally owned account, although it looks
+// like one to anything that only asks "is the code empty?").
+const (
+	endRuntime      = 0 // RETURN the runtime                                  -> code + storage
+	endReturnEmpty  = 1 // RETURN(0, 0): zero-length runtime                   -> NO code, storage stays
+	endStop         = 2 // STOP without RETURN                                 -> NO code, storage stays
+	endSelfdestruct = 3 // SELFDESTRUCT(caller) after storing                  -> no account at all (an account that was there before is removed)
+	endOneByte      = 4 // RETURN one byte of code (00 = STOP): the control    -> 1 byte of code + storage
+	endRevert       = 5 // REVERT after storing: the creation fails, the nonce is used up
+	endChild        = 6 // CREATE a child whose constructor stores the same slots and STOPs (codeless child with
+	//                     storage at CreateAddress(contract, 1)), record its address in slot 0x99, RETURN the runtime (nonce 2)
+	endChildOneByte = 7 // the same with a child that returns one byte of code (control)
+	nEndings        = 8
+)
+
+func endName(e int) string {
+	return []string{"runtime", "return-empty", "stop", "selfdestruct", "one-byte", "revert", "child-codeless", "child-one-byte"}[((e%nEndings)+nEndings)%nEndings]
+}
+
+// endLeavesNoCode: the successful creation leaves an account without code.
+func endLeavesNoCode(e int) bool {
+	e = ((e % nEndings) + nEndings) % nEndings
+	return e == endReturnEmpty || e == endStop
 }
 
 // ctorSlots: the constructor's writes (slot, value), n of them, never a zero value.
@@ -73,20 +103,74 @@ func ctorSlots(kind int, n int, v uint64) [][2]uint64 {
 	return out
 }
 
-func smallInit(kind int, n int, v uint64) []byte {
-	rt := smallRuntime(kind, v)
+// allCtorSlots: every slot a constructor of any shape may have written (for the "clear everything" call).
+func allCtorSlots() []uint64 {
+	return []uint64{0, 1, 2*7 + 0 + 0x100, 2*7 + 1 + 0x100, 2*7 + 2 + 0x100}
+}
+
+func ctorStores(kind, n int, v uint64) string {
 	src := []string{}
 	for _, kv := range ctorSlots(kind, n, v) {
 		src = append(src, fmt.Sprintf("%d %d SSTORE", kv[1], kv[0]))
 	}
-	ctor := []byte{}
-	if len(src) > 0 {
-		ctor = assemble(strings.Join(src, " "))
+	return strings.Join(src, " ")
+}
+
+// returnTail: PUSH2 len DUP1 PUSH2 off PUSH1 0 CODECOPY PUSH1 0 RETURN (13 bytes) followed by the bytes to return,
+// for a tail that starts at offset at.
+func returnTail(at int, body []byte) []byte {
+	off := at + 13
+	cp := []byte{0x61, byte(len(body) >> 8), byte(len(body)), 0x80, 0x61, byte(off >> 8), byte(off), 0x60, 0, 0x39, 0x60, 0, 0xf3}
+	return append(cp, body...)
+}
+
+// ctorCode: prefix (assembled source that falls through), the constructor slots, the ending.
+func ctorCode(prefix string, kind, n int, v uint64, end int) []byte {
+	end = ((end % nEndings) + nEndings) % nEndings
+	code := []byte{}
+	if src := strings.TrimSpace(prefix + " " + ctorStores(kind, n, v)); src != "" {
+		code = assemble(src)
 	}
-	off := len(ctor) + 13
-	// PUSH2 len DUP1 PUSH2 off PUSH1 0 CODECOPY PUSH1 0 RETURN  (13 bytes)
-	cp := []byte{0x61, byte(len(rt) >> 8), byte(len(rt)), 0x80, 0x61, byte(off >> 8), byte(off), 0x60, 0, 0x39, 0x60, 0, 0xf3}
-	return append(append(ctor, cp...), rt...)
+	switch end {
+	case endReturnEmpty:
+		return append(code, assemble("0 0 RETURN")...)
+	case endStop:
+		return append(code, 0x00)
+	case endSelfdestruct:
+		return append(code, assemble("CALLER SELFDESTRUCT")...)
+	case endOneByte:
+		return append(code, returnTail(len(code), []byte{0x00})...)
+	case endRevert:
+		return append(code, assemble("0 0 REVERT")...)
+	case endChild, endChildOneByte:
+		childEnd := endStop
+		if end == endChildOneByte {
+			childEnd = endOneByte
+		}
+		child := ctorCode("", kind, n, v, childEnd)
+		rt := smallRuntime(kind, v)
+		// PUSH2 clen PUSH2 coff PUSH1 0 CODECOPY PUSH2 clen PUSH1 0 PUSH1 0 CREATE PUSH1 0x99 SSTORE   (20 bytes)
+		coff := len(code) + 20 + 13 + len(rt)
+		mk := []byte{0x61, byte(len(child) >> 8), byte(len(child)), 0x61, byte(coff >> 8), byte(coff), 0x60, 0, 0x39,
+			0x61, byte(len(child) >> 8), byte(len(child)), 0x60, 0, 0x60, 0, 0xf0, 0x60, 0x99, 0x55}
+		code = append(code, mk...)
+		code = append(code, returnTail(len(code), rt)...)
+		return append(code, child...)
+	}
+	return append(code, returnTail(len(code), smallRuntime(kind, v))...)
+}
+
+func smallInit(kind int, n int, v uint64, end int) []byte { return ctorCode("", kind, n, v, end) }
+
+// The CREATE2 factory: calldata = salt (32 bytes) ++ init code; CREATE2(callvalue, init code, salt); the resulting
+// address (0 after a failed creation) is recorded in the factory's slot [salt].
+var factoryRuntime = assemble("32 CALLDATASIZE SUB DUP1 32 0 CALLDATACOPY 0 CALLDATALOAD SWAP1 0 CALLVALUE CREATE2 0 CALLDATALOAD SSTORE STOP")
+
+// create2Init: init code that FAILS (SSTORE, then REVERT) while the new account holds no balance and behaves like
+// ctorCode otherwise: the same salt and init code give the same address, so a first attempt without value
+// fails at X, and a second attempt with value succeeds at the very same X.
+func create2Init(kind, n int, v uint64, end int) []byte {
+	return ctorCode("SELFBALANCE @go JUMPI 77 7 SSTORE 0 0 REVERT go:", kind, n, v, end)
 }
 
 // ---------------------------------------------------------------- ops
@@ -181,11 +265,12 @@ func (h *hist) applyEvm(op hOp, a, b int) (error, bool) {
 		h.planned = append(h.planned, x)
 		return nil, true
 	case "deployc":
-		// the small contract, from deployer a at its current nonce: K constructor slots, code shape Kind
+		// the small contract, from deployer a at its current nonce: K constructor slots, code shape Kind,
+		// constructor ending End (runtime / zero-length RETURN / STOP / SELFDESTRUCT / one byte / REVERT / child)
 		ca := chainAcct(a)
 		nonce := c.App.EvmKeeper.GetNonce(ctx, ca.Eth)
 		n := int(op.K % 4)
-		bz, _, err := c.EthTx(ctx, a, nil, amtOf(op.Amt, big.NewInt(0)), smallInit(op.Kind, n, op.V), 600_000, 0)
+		bz, _, err := c.EthTx(ctx, a, nil, amtOf(op.Amt, big.NewInt(0)), smallInit(op.Kind, n, op.V, op.End), 900_000, 0)
 		if err != nil {
 			return err, true
 		}
@@ -194,16 +279,33 @@ func (h *hist) applyEvm(op hOp, a, b int) (error, bool) {
 		if res.Code != 0 || ethFailed(res) {
 			return fmt.Errorf("deployc failed: code %d %s", res.Code, trunc(res.Log, 200)), true
 		}
-		h.small = append(h.small, crypto.CreateAddress(ca.Eth, nonce))
+		x := crypto.CreateAddress(ca.Eth, nonce)
+		h.small = append(h.small, x)
+		if e := ((op.End % nEndings) + nEndings) % nEndings; e == endChild || e == endChildOneByte {
+			h.planned = append(h.planned, crypto.CreateAddress(x, 1)) // the child: queried, never poked by index
+		}
 		return nil, true
 	case "poke":
-		// an SSTORE-changing call of a small contract (V = 0 clears the slot)
+		// an SSTORE-changing call of a small contract (V = 0 clears the slot); Kind 1: one call that clears every
+		// slot a constructor may have written; Kind 2: the slot K and all constructor slots are set to V, V+1, ...
+		// (an address without code simply receives the call's value)
 		if len(h.small) == 0 {
 			return fmt.Errorf("no small contract"), true
 		}
 		to := h.small[((op.B%len(h.small))+len(h.small))%len(h.small)]
 		data := append(wordU(op.K), wordU(op.V)...)
-		bz, _, err := c.EthTx(ctx, a, &to, amtOf(op.Amt, big.NewInt(0)), data, 200_000, 0)
+		switch op.Kind {
+		case 1:
+			data = []byte{}
+			for _, k := range allCtorSlots() {
+				data = append(data, append(wordU(k), wordU(0)...)...)
+			}
+		case 2:
+			for i, k := range allCtorSlots() {
+				data = append(data, append(wordU(k), wordU(op.V+uint64(i)+1)...)...)
+			}
+		}
+		bz, _, err := c.EthTx(ctx, a, &to, amtOf(op.Amt, big.NewInt(0)), data, 400_000, 0)
 		if err != nil {
 			return err, true
 		}
@@ -211,6 +313,52 @@ func (h *hist) applyEvm(op hOp, a, b int) (error, bool) {
 		h.gasUsed += res.GasUsed
 		if res.Code != 0 || ethFailed(res) {
 			return fmt.Errorf("poke failed: code %d %s", res.Code, trunc(res.Log, 200)), true
+		}
+		return nil, true
+	case "factory":
+		// the CREATE2 factory, from deployer a
+		ca := chainAcct(a)
+		nonce := c.App.EvmKeeper.GetNonce(ctx, ca.Eth)
+		bz, _, err := c.EthTx(ctx, a, nil, big.NewInt(0), deployInit(factoryRuntime), 600_000, 0)
+		if err != nil {
+			return err, true
+		}
+		res := c.Deliver(bz)
+		h.gasUsed += res.GasUsed
+		if res.Code != 0 || ethFailed(res) {
+			return fmt.Errorf("factory failed: code %d %s", res.Code, trunc(res.Log, 200)), true
+		}
+		h.factories = append(h.factories, crypto.CreateAddress(ca.Eth, nonce))
+		return nil, true
+	case "create2":
+		// factory B creates (salt V, shape Kind, K constructor slots, ending End) with the value Amt: the init code
+		// reverts while the new account has no balance, so the same op with Amt = 0 and then Amt > 0 is a failed and
+		// then a successful creation at the same address
+		if len(h.factories) == 0 {
+			return fmt.Errorf("no factory"), true
+		}
+		f := h.factories[((op.B%len(h.factories))+len(h.factories))%len(h.factories)]
+		init := create2Init(op.Kind, int(op.K%4), op.V, op.End)
+		salt := common.BytesToHash(wordU(op.V))
+		x := crypto.CreateAddress2(f, salt, crypto.Keccak256(init))
+		bz, _, err := c.EthTx(ctx, a, &f, amtOf(op.Amt, big.NewInt(0)), append(wordU(op.V), init...), 900_000, 0)
+		if err != nil {
+			return err, true
+		}
+		res := c.Deliver(bz)
+		h.gasUsed += res.GasUsed
+		if res.Code != 0 || ethFailed(res) {
+			return fmt.Errorf("create2 failed: code %d %s", res.Code, trunc(res.Log, 200)), true
+		}
+		known := false
+		for _, s := range h.small {
+			known = known || s == x
+		}
+		if !known {
+			h.small = append(h.small, x) // also after the failed attempt: the address is queried on both chains
+		}
+		if c.App.EvmKeeper.GetNonce(c.Ctx(), x) == 0 {
+			return fmt.Errorf("create2: the creation inside the factory call failed (no account at %s)", x.Hex()), true
 		}
 		return nil, true
 	}
@@ -433,7 +581,7 @@ func injectEvmScenarios(r *Rng, in hInput, n int) hInput {
 	if nb == 0 {
 		return in
 	}
-	nSmall := 0
+	nSmall, nFactory := 0, 0
 	for s := 0; s < n; s++ {
 		dep := r.Intn(chainNAccts)
 		fun := r.Intn(chainNAccts)
@@ -456,14 +604,7 @@ func injectEvmScenarios(r *Rng, in hInput, n int) hInput {
 			land = append(land, hOp{Op: "ethsend", A: dep, B: r.Intn(chainNAccts), Amt: fmt.Sprint(1 + r.Intn(1000))})
 		}
 		follow := []hOp{}
-		if r.Chance(75) {
-			d := hOp{Op: "deployc", A: dep, Kind: r.Intn(3), K: uint64(r.Intn(4)), V: r.U64() % 1_000_000}
-			if r.Chance(15) {
-				d.Amt = fmt.Sprint(1 + r.Intn(5000)) // an endowment
-			}
-			land = append(land, d)
-			idx := nSmall
-			nSmall++
+		pokes := func(idx, kind int) {
 			for i, m := 0, r.Intn(4); i < m; i++ {
 				v := r.U64() % 1000
 				if r.Chance(30) {
@@ -471,11 +612,51 @@ func injectEvmScenarios(r *Rng, in hInput, n int) hInput {
 				}
 				k := uint64(r.Intn(3))
 				if r.Chance(25) {
-					k = uint64(2)*7 + uint64(d.Kind) + 0x100 // the constructor's third slot
+					k = uint64(2)*7 + uint64(kind) + 0x100 // the constructor's third slot
 				}
-				follow = append(follow, hOp{Op: "poke", A: r.Intn(chainNAccts), B: idx, K: k, V: v})
+				p := hOp{Op: "poke", A: r.Intn(chainNAccts), B: idx, K: k, V: v}
+				switch t := r.Intn(100); {
+				case t < 15:
+					p.Kind = 1 // the contract clears every constructor slot in one call
+				case t < 25:
+					p.Kind = 2 // ... or rewrites all of them
+				}
+				if r.Chance(10) {
+					p.Amt = fmt.Sprint(1 + r.Intn(5000)) // the call carries value (all a codeless address can receive)
+				}
+				follow = append(follow, p)
 			}
-		} else {
+		}
+		switch t := r.Intn(100); {
+		case t < 62:
+			d := hOp{Op: "deployc", A: dep, Kind: r.Intn(3), K: uint64(r.Intn(4)), V: r.U64() % 1_000_000, End: pickEnding(r, true)}
+			if r.Chance(15) {
+				d.Amt = fmt.Sprint(1 + r.Intn(5000)) // an endowment
+			}
+			land = append(land, d)
+			if d.End != endRevert {
+				idx := nSmall
+				nSmall++
+				pokes(idx, d.Kind)
+			}
+		case t < 80:
+			// a CREATE2 factory (itself landing on the prepared address), then a creation that fails and succeeds at
+			// the same address (or succeeds at once)
+			land = append(land, hOp{Op: "factory", A: dep})
+			idxF := nFactory
+			nFactory++
+			for i, m := 0, 1+r.Intn(2); i < m; i++ {
+				c2 := hOp{Op: "create2", A: r.Intn(chainNAccts), B: idxF, Kind: r.Intn(3), K: uint64(r.Intn(4)), V: r.U64() % 1_000_000, End: pickEnding(r, false)}
+				if r.Chance(70) {
+					follow = append(follow, c2) // without value: the init code stores and reverts
+				}
+				c2.Amt = fmt.Sprint(1 + r.Intn(5000))
+				follow = append(follow, c2)
+				idx := nSmall
+				nSmall++
+				pokes(idx, c2.Kind)
+			}
+		default:
 			land = append(land, hOp{Op: "deploy", A: dep})
 			for i, m := 0, r.Intn(3); i < m; i++ {
 				follow = append(follow, hOp{Op: "sstore", A: r.Intn(chainNAccts), B: -1, K: uint64(r.Intn(6)), V: r.U64() % 1000, Kind: r.Intn(3)})
@@ -499,6 +680,30 @@ func injectEvmScenarios(r *Rng, in hInput, n int) hInput {
 		}
 	}
 	return in
+}
+
+// pickEnding: how the constructor ends; about every third creation leaves an account WITHOUT code (and, with
+// constructor slots, with storage).
+func pickEnding(r *Rng, withChildren bool) int {
+	switch t := r.Intn(100); {
+	case t < 38:
+		return endRuntime
+	case t < 56:
+		return endReturnEmpty
+	case t < 68:
+		return endStop
+	case t < 75:
+		return endSelfdestruct
+	case t < 83:
+		return endOneByte
+	case t < 87:
+		return endRevert
+	case !withChildren:
+		return endRuntime
+	case t < 95:
+		return endChild
+	}
+	return endChildOneByte
 }
 
 // genesisBaseAccounts: genesis mutation placing BaseAccounts at future CREATE addresses.
